@@ -262,6 +262,8 @@ type Genesis struct {
 	Wrk, Bcn Fees
 	StrFee   string      // 18-decimal scaled integer
 	Addrs    [][2]string // "G addr" lines in script order: token, lower-case hex of the address bytes (§6)
+	Long     [][2]string // "G lacct <L-token> <coins>": a long (non-key) address that holds an account and coins in genesis
+	Grants   [][3]string // "G authz <granter> <grantee> <kind>": authz grants (generic, no expiry) present in genesis
 	seen     map[string]bool
 }
 
@@ -284,6 +286,12 @@ func (g *Genesis) Lines() []string {
 	}
 	for _, a := range g.Addrs {
 		out = append(out, fmt.Sprintf("G addr %s %s", a[0], a[1]))
+	}
+	for _, a := range g.Long {
+		out = append(out, fmt.Sprintf("G lacct %s %s", a[0], a[1]))
+	}
+	for _, a := range g.Grants {
+		out = append(out, fmt.Sprintf("G authz %s %s %s", a[0], a[1], a[2]))
 	}
 	out = append(out, fmt.Sprintf("G ent denom=%s min=%d limit=%d signers=%s wl=%s startid=%d",
 		Tok(g.Ent.Denom), g.Ent.Min, g.Ent.Limit, List(g.Ent.Signers), List(g.Ent.WL), g.Ent.Sid))
@@ -315,7 +323,7 @@ func (g *Genesis) AddLine(toks []string) error {
 		g.seen = map[string]bool{}
 	}
 	what, rest := toks[1], toks[2:]
-	if what != "acct" && what != "addr" {
+	if what != "acct" && what != "addr" && what != "lacct" && what != "authz" {
 		if g.seen[what] {
 			return fmt.Errorf("duplicate G %s", what)
 		}
@@ -347,6 +355,16 @@ func (g *Genesis) AddLine(toks []string) error {
 			return fmt.Errorf("G acct: malformed %v", rest)
 		}
 		g.Accts = append(g.Accts, a)
+	case "lacct":
+		if len(rest) != 2 || !strings.HasPrefix(rest[0], "L") {
+			return fmt.Errorf("G lacct: want <L-token> <coins>")
+		}
+		g.Long = append(g.Long, [2]string{rest[0], rest[1]})
+	case "authz":
+		if len(rest) != 3 {
+			return fmt.Errorf("G authz: want <granter> <grantee> <kind>")
+		}
+		g.Grants = append(g.Grants, [3]string{rest[0], rest[1], rest[2]})
 	case "addr":
 		if len(rest) != 2 || rest[1] == "" || rest[1] != strings.ToLower(rest[1]) {
 			return fmt.Errorf("G addr: want <token> <lower-case hex>")
